@@ -537,6 +537,24 @@ func TestC11_Sessions(t *testing.T) {
 				now += d
 				w.logf("advance(%v)", d)
 			default: // bad cookie
+				if strings.HasPrefix(w.cd.name, "hash") && rapid.IntRange(0, 3).Draw(t, "respelled") == 0 {
+					// another spelling of the digits of a hashed cookie (upper case, leading zeros): no
+					// such cookie was ever issued; it is worth what any unknown value is worth
+					v := strings.ToUpper(cookie.Value)
+					if v == cookie.Value || rapid.Bool().Draw(t, "zeroPadded") {
+						v = "0" + cookie.Value
+					}
+					badCookie = true
+					w.logf("bad-cookie(respelled)=%q", v)
+					seen, issued, code := w.do(&http.Cookie{Name: "sid", Value: v})
+					if w.served != 1 || seen == nil || code != 299 || w.members[key(seen)] == nil {
+						w.fail("request with the never-issued cookie %q: status %d, handler ran %d times, routed to %v", v, code, w.served, seen)
+					}
+					if issued == nil || issued.Value != w.cd.cv.Get(w.members[key(seen)]) {
+						w.fail("request with the cookie %q (another spelling of the hashed cookie %q, never issued) was routed to %s and received the fresh cookie %v; want the cookie of the server chosen", v, cookie.Value, seen, issued)
+					}
+					break
+				}
 				bad, kind := mutateCookie(t, w, cookie)
 				if bad.Value == cookie.Value {
 					break
